@@ -512,7 +512,7 @@ var c10Reasons = []string{RejectValidationFailed, RejectValidationIgnored, Rejec
 	RejectBlacklistedSource, RejectValidationQueueFull}
 
 func TestVerifC10Score(t *testing.T) {
-	vRun(t, "C10.score", vCount(800, 40000), func(c *vCase) {
+	vRun(t, "C10.score", vCount(1600, 50000), func(c *vCase) {
 		c.Bubble(func() {
 			partial := c.Chance(0.3)
 			nPeers, nTopics := c.Range(1, 4), c.Range(1, 3)
